@@ -1051,3 +1051,41 @@ def s_function_value_names(_ctx):
 
 SCENARIOS.append(Scenario("C13.export.function_value_names", s_function_value_names,
                           [(REL, "_Exporter._translate_function"), (REL, "_Exporter._handle_attrname_conflict.new_renamer"), (REL, "_names_used_in_function")], kind="evaluation"))
+
+
+def s_local_function_calls(_ctx):
+    """export(): a node that calls a MODEL-LOCAL function is printed as a call of the script function generated for that function (so that
+    the re-imported model contains the function), an operator node as `<opset>.<Op>(...)`.  Decided on the real exporter and converter:
+    the exported module is executed and the re-imported model must contain the same functions and (onnxruntime) compute the same."""
+    from contracts.c17_opsets import Agg
+    import sys
+    sys.path.insert(0, "/verif")
+    from replay_lib import c13_local_functions as L
+    agg = Agg()
+    cl = "C13: 'every tensor-typed model over standard-domain operators with If and Loop bodies, model-local functions with attribute references' round-trips"
+    bad = L.failures()
+    agg.ob("C13.export.local_functions.a_call_of_a_model_local_function_round_trips_with_the_function", not bad, "; ".join(bad[:2]), cl)
+    # text level: the callee of the emitted call statement is the NAME the function definition is given
+    import onnx
+    from onnx import helper as oh, TensorProto as TP
+    exp = _exp()
+    for what, m in L.models():
+        ex = exp._Exporter(rename=False, use_operators=False, inline_const=False, skip_initializers=False)
+        text = ex.export(m, "main")
+        import ast as _ast
+        tree = _ast.parse(text)
+        defs = {n.name for n in tree.body if isinstance(n, _ast.FunctionDef)}
+        calls = [c for n in tree.body if isinstance(n, _ast.FunctionDef) for c in _ast.walk(n) if isinstance(c, _ast.Call)]
+        local = {f.name for f in m.functions}
+        ok = True
+        for c in calls:
+            callee = c.func
+            nm = callee.attr if isinstance(callee, _ast.Attribute) else getattr(callee, "id", None)
+            if nm in local:
+                ok = ok and isinstance(callee, _ast.Name) and callee.id in defs
+        agg.ob("C13.export.local_functions.the_callee_is_the_generated_script_function", ok, f"{what}: {[_ast.unparse(c.func) for c in calls]}; definitions {sorted(defs)}", cl, case=what)
+    return {"obligations": agg.obs, "paths": 2, "covered": ["local_function_models=2"], "notes": [], "functions": []}
+
+
+SCENARIOS.append(Scenario("C13.export.local_functions", s_local_function_calls, [(REL, "_Exporter.export"), (REL, "_Exporter._translate_node"), (REL, "_Exporter._make_callee_name")],
+                          kind="evaluation", trusted=["onnxruntime as the reference for 'computes the same'"]))
